@@ -36,6 +36,7 @@ pub fn profile() -> Profile {
     p.ty.f64_ = true;
     p.vin_as_storage = 1;
     p.keyword_names = 1;
+    p.struct_helpers = 4;
     p
 }
 
